@@ -34,6 +34,7 @@ THEOREMS = {
         "Dawgs.C16.Props.sieve_counters_exact",
         "Dawgs.C16.Props.nemap_step_retention",
         "Dawgs.C16.Props.sieve_exact_when_working_set_fits",
+        "Dawgs.C16.Props.nemap_exact_when_working_set_fits",
     ],
 }
 
@@ -76,7 +77,7 @@ CLAUSES = {
     "coherent also means: nothing is forgotten except by the policy (refinement alone would allow a cache that drops entries at will)": "sieve_step_retention (for every reachable state and every next operation: Get changes no stored binding; Delete k removes k only; Put of a stored key keeps the key set; "
         "Put of a new key with room evicts nothing; Put of a new key into a full cache evicts EXACTLY ONE stored key, never the new one; all other bindings keep their values) and nemap_step_retention "
         "(the map cache never evicts: Get / Put keep every stored key, a Put of a new key into a full cache is dropped and leaves the state unchanged, Delete k removes k only)",
-    "a cache whose working set fits is an exact map": "sieve_exact_when_working_set_fits (if every key the history puts lies in a list of at most capacity keys, the whole observable trace equals the "
+    "a cache whose working set fits is an exact map": "sieve_exact_when_working_set_fits / nemap_exact_when_working_set_fits (if every key the history puts lies in a list of at most capacity keys, the whole observable trace equals the "
         "ideal never-evicting map's trace: a miss only where the ideal map misses); the second example shows the hypothesis is needed",
     "hit / miss statistics are exact": "sieve_counters_exact (after any history the hit counter is the number of hits the callers were given, the miss counter the number of misses, their sum the number of Get calls); "
         "the tie compares both counters after every operation",
